@@ -5,6 +5,7 @@ from rules.common import (core_and_neg, tnode, other, cpos, npos, branches_on_ca
                           flatten)
 from rules.c02 import cmp_sides
 import gen_macros
+import re
 
 EXPLANATION = ("Gating. R1 (exhaustive over every log macro LogMacros.h defines, re-derived with clang -E -dM on each run): in the "
                "macro's expansion the log_statement call and the evaluation of the user's arguments (a marker call) are reachable only "
@@ -34,6 +35,11 @@ def run(ctx):
     r2(ctx, facts)
     r3(ctx, facts)
     r4(ctx, facts)
+    r5_override_chain(ctx, facts)
+    # two loggers share a formatter only when every option is equal (shared with C12.R7)
+    from rules import c12
+    from rules.c09 import Renamed as _Ren
+    c12.r7_options_equality(_Ren(ctx, "C12.R7", "C16.R6"), facts)
     # the dynamic level travels with the event through buffer growth and into the backtrace ring (shared with C03)
     from rules import c03
     from rules.c09 import Renamed
@@ -390,3 +396,112 @@ def r4(ctx, facts):
     ok = bool(cl) and bool(pops) and all(pl.g.exists_path(pl.g.positions(c), pops) for c in cl)
     ctx.ob("C16.R4d", "_process_lowest_timestamp_transit_event:named-args-reset", ok,
            "the consumed event's named arguments are cleared before the slot is reused", fn=pl)
+
+
+def r5_override_chain(ctx, facts):
+    """R5: the override pattern a user configures reaches the field the backend reads. Per config class: the setter stores its parameter
+    in the field the getter returns. Per constructor of a class derived from Sink: a parameter that bears the override (an
+    optional<PatternFormatterOptions>, or a config object whose class has the getter) is handed — itself, or through the getter — to a
+    base-constructor parameter that in turn reaches Sink::_override_pattern_formatter_options."""
+    OPT = "optional<PatternFormatterOptions>"
+    FIELD = "_override_pattern_formatter_options"
+    classes = {n: rec for (n, c), rec in facts.classes.items() if c == "A"}
+
+    canon = {n.replace("quill::", ""): n for n in classes}
+
+    def bases_closure(n, seen=None):
+        seen = seen if seen is not None else set()
+        for b in (classes.get(n) or {}).get("bases", []):
+            b = canon.get(b.replace("quill::", ""), b)
+            if b not in seen:
+                seen.add(b)
+                bases_closure(b, seen)
+        return seen
+
+    cfg_classes = [n for n, c in classes.items() if any(m["name"].endswith("::override_pattern_formatter_options") for m in c.get("methods", []))]
+    if len(cfg_classes) < 2:
+        raise AnalysisBroken("sink config classes with an override_pattern_formatter_options() getter: expected FileSinkConfig and ConsoleSinkConfig, found %s" % cfg_classes)
+    cfg_all = set(cfg_classes) | {n for n in classes if bases_closure(n) & set(cfg_classes)}
+    for cn in cfg_classes:
+        setter = facts.need(cn + "::set_override_pattern_formatter_options", "A")[0]
+        getter = facts.need(cn + "::override_pattern_formatter_options", "A")[0]
+        p0 = setter.rec["params"][0]["did"]
+        stored = [field_name(a["lhs"]) for a in setter.walk() if a["k"] in ("BinaryOperator", "CXXOperatorCallExpr") and
+                  ((a["k"] == "BinaryOperator" and a.get("op") == "=" and var_ref(strip(a["rhs"], casts=True)) == p0 and is_this_field(a["lhs"])))]
+        for a in setter.walk():
+            if a["k"] == "CXXOperatorCallExpr" and (a.get("callee") or "").endswith("operator=") and len(a["args"]) == 2 and \
+                    is_this_field(a["args"][0]) and any(var_ref(x) == p0 for x in walk(a["args"][1])):
+                stored.append(field_name(a["args"][0]))
+        rets = [getter.g.node_ast(r) for r in getter.g.return_nodes()]
+        got = [field_name(strip(r.get("val"), casts=True)) for r in rets if is_this_field(strip(r.get("val"), casts=True))]
+        ctx.ob("C16.R5a", "%s:override-setter-getter" % cn.split("::")[-1], len(stored) == 1 and got == stored,
+               "set_override_pattern_formatter_options stores its argument in the field override_pattern_formatter_options() returns "
+               "(stored in %s, returned %s)" % (stored, got), fn=setter)
+
+    ctors = [f for f in facts.fns if f.config == "A" and f.rec.get("ctor")]
+
+    def resolve(callee, nargs):
+        c = [f for f in ctors if f.name == callee or f.short == callee]
+        if not c:   # inheriting constructor: Derived<...>::Base names Base's constructor
+            last = callee.split("::")[-1]
+            c = [f for f in ctors if f.short.endswith("::%s::%s" % (last, last)) or f.short == "quill::%s::%s" % (last, last)]
+        c = [f for f in c if len(f.rec["params"]) == nargs]
+        return c[0] if c else None
+
+    memo = {}
+
+    def carried(f):
+        """indexes of f's parameters whose override reaches Sink's field"""
+        if id(f) in memo:
+            return memo[id(f)]
+        memo[id(f)] = set()
+        params = [p["did"] for p in f.rec["params"]]
+        out = set()
+        for i in f.rec.get("inits") or []:
+            e = i.get("expr")
+            if e is None:
+                continue
+            if i["member"] == FIELD and f.cls == "quill::Sink":
+                out |= {params.index(var_ref(x)) for x in walk(e) if var_ref(x) in params}
+            if i["member"].startswith("base:"):
+                ce = [x for x in walk(e) if x["k"] in ("CXXConstructExpr", "CXXTemporaryObjectExpr") and x.get("callee")]
+                if not ce:
+                    continue
+                ce = ce[0]
+                b = resolve(ce["callee"], len(ce.get("args") or []))
+                if b is None:
+                    continue
+                for j in carried(b):
+                    arg = ce["args"][j]
+                    for x in walk(arg):
+                        v = var_ref(x)
+                        if v in params and (OPT in (f.rec["params"][params.index(v)].get("ty") or "")):
+                            out.add(params.index(v))
+                        if is_call(x, r"::override_pattern_formatter_options$"):
+                            o = call_obj(x)
+                            if var_ref(strip(o, casts=True)) in params:
+                                out.add(params.index(var_ref(strip(o, casts=True))))
+                        # the whole config handed on to a base that takes the config
+                        if v in params and any(c.split("::")[-1] in (f.rec["params"][params.index(v)].get("ty") or "") for c in cfg_all) and \
+                                strip(arg, casts=True) is x:
+                            out.add(params.index(v))
+        memo[id(f)] = out
+        return out
+
+    sink = [f for f in ctors if f.short == "quill::Sink::Sink"]
+    if not sink or not carried(sink[0]):
+        raise AnalysisBroken("Sink's constructor does not initialise %s from a parameter" % FIELD)
+    n = 0
+    for f in ctors:
+        if "quill::Sink" not in bases_closure(f.cls):
+            continue
+        bearing = [k for k, p in enumerate(f.rec["params"]) if OPT in (p.get("ty") or "") or
+                   any(re.search(r"\b%s\b" % re.escape(c.split("::")[-1]), p.get("ty") or "") for c in cfg_all)]
+        if not bearing:
+            continue
+        n += 1
+        ok = set(bearing) <= carried(f)
+        ctx.ob("C16.R5b", "%s:override-forwarded" % f.name.replace("quill::", ""), ok,
+               "the constructor hands the override pattern options of its parameter(s) %s on to the base constructor argument that reaches "
+               "Sink::%s (reaching: %s)" % ([f.rec["params"][k].get("name") or k for k in bearing], FIELD, sorted(carried(f))), fn=f)
+    ctx.floor("C16.R5b", "sink constructors that take override-bearing parameters", n, 6)
